@@ -227,8 +227,16 @@ def compare_answer(where, got_raw, exp, fails, key_prefix, detail_ctx="", alt=No
     return False
 
 
-def text_for_dict_kept(obj):
-    return G.is_dict_kept(obj)
+def quirk_text(obj):
+    return "text" if G.is_dict_kept(obj) else None
+
+
+def quirk_parsed_in(obj):
+    return None if G.is_dict_kept(obj) else "parsed-in"
+
+
+def quirk_both(obj):
+    return "text" if G.is_dict_kept(obj) else "parsed-in"
 
 
 def selftest():
